@@ -20,6 +20,17 @@ fn digits(num: &Value) -> (String, Option<u128>) {
     }
 }
 
+/// "#n#p": n letters with one multi-byte letter (2, 3 or 4 bytes, by position) at position p
+fn unit_text(u: &str) -> String {
+    if let Some(rest) = u.strip_prefix('#') {
+        let mut it = rest.split('#');
+        let n: usize = it.next().unwrap().parse().unwrap();
+        let p: usize = it.next().unwrap().parse().unwrap();
+        return (1..=n).map(|i| if i == p && p <= n { ['\u{e9}', '\u{4e16}', '\u{1F600}'][p % 3] } else { 'k' }).collect();
+    }
+    u.replace('~', "\u{212a}").replace('^', "\u{17f}")
+}
+
 fn yaml_quote(s: &str) -> String {
     format!("\"{}\"", s.replace('\\', "\\\\").replace('"', "\\\""))
 }
@@ -33,7 +44,7 @@ fn check_case(case: &Value) -> Option<Value> {
         dg,
         if lit["frac"].as_bool().unwrap() { ".5" } else { "" },
         lit["ws"].as_str().unwrap(),
-        lit["unit"].as_str().unwrap().replace('~', "\u{212a}").replace('^', "\u{17f}"),
+        unit_text(lit["unit"].as_str().unwrap()),
         lit["trail"].as_str().unwrap()
     );
     let is_int = lit["form"] == "int";
